@@ -21,9 +21,29 @@ func init() {
 	nop := func(e *Engine, st *State, fr *Frame, callee *ssa.Function, args []Val, at ssa.Instruction) []Val {
 		return nil
 	}
-	for _, n := range []string{"(*sync.Mutex).Lock", "(*sync.Mutex).Unlock", "(*sync.RWMutex).Lock", "(*sync.RWMutex).Unlock",
-		"(*sync.RWMutex).RLock", "(*sync.RWMutex).RUnlock"} {
-		modelTable[n] = nop
+	_ = nop
+	// Locks: ghost counters per lock address — number of acquisitions (any / write) and the current
+	// holding state (0 free, 1 read-held, 2 write-held). Mutual exclusion itself is assumed
+	// (sync's contract); the counters let a contract say "exactly one write critical section".
+	lockOp := func(acq, wacq int64, held int64) modelFn {
+		return func(e *Engine, st *State, fr *Frame, callee *ssa.Function, args []Val, at ssa.Instruction) []Val {
+			p := args[0][0]
+			get := func(name string) *Term { return Select(st.heap.get(name, ArrSort(SInt)), p) }
+			set := func(name string, v *Term) { st.heap.arr[name] = Store(st.heap.get(name, ArrSort(SInt)), p, v) }
+			set("sync|$acq", Add(get("sync|$acq"), IntC(acq)))
+			set("sync|$wacq", Add(get("sync|$wacq"), IntC(wacq)))
+			set("sync|$held", IntC(held))
+			return nil
+		}
+	}
+	modelTable["(*sync.Mutex).Lock"] = lockOp(1, 1, 2)
+	modelTable["(*sync.Mutex).Unlock"] = lockOp(0, 0, 0)
+	modelTable["(*sync.RWMutex).Lock"] = lockOp(1, 1, 2)
+	modelTable["(*sync.RWMutex).Unlock"] = lockOp(0, 0, 0)
+	modelTable["(*sync.RWMutex).RLock"] = lockOp(1, 0, 1)
+	modelTable["(*sync.RWMutex).RUnlock"] = lockOp(0, 0, 0)
+	for _, n := range []string{"(*sync.Mutex).Lock", "(*sync.Mutex).Unlock", "(*sync.RWMutex).Lock", "(*sync.RWMutex).Unlock", "(*sync.RWMutex).RLock", "(*sync.RWMutex).RUnlock"} {
+		modelWrites[n] = "sync|$"
 	}
 	modelTable["errors.New"] = freshError
 	modelTable["fmt.Errorf"] = freshError
